@@ -22,7 +22,7 @@ ASSUMPTIONS = ['!append in the very first document is not generated (statement: 
                '!prev destinations hold nothing or a scalar (a mapping moved onto a mapping merges key-wise by the ordinary rules)']
 
 KEYS = ['a', 'b', 'c', 'l', '_p']
-LEAF = st.one_of(st.integers(0, 9), st.sampled_from(['s', 't', 2.5, None, True]))
+LEAF = st.one_of(st.integers(0, 9), st.sampled_from(['s', 't', 2.5, None, True, 0, False, '', 0.0]))
 
 
 @st.composite
@@ -40,6 +40,8 @@ def _plain(draw, depth=0):
             out[k] = [[draw(LEAF) for _ in range(draw(st.integers(0, 2)))] for _ in range(draw(st.integers(1, 3)))]
         elif c == 5 and depth < 2:
             out[k] = [draw(_plain(depth + 2)) for _ in range(draw(st.integers(1, 2)))]
+        elif c == 6 and draw(st.booleans()):
+            out[k] = draw(st.sampled_from([{}, []]))
         else:
             out[k] = draw(LEAF)
     return out
@@ -85,7 +87,7 @@ def _stage(draw, cur):
     for _ in range(draw(st.integers(1, 3))):
         kind = draw(st.sampled_from(['append', 'extend', 'prev', 'append', 'prev']))
         if kind in ('append', 'extend'):
-            mode = draw(st.sampled_from(['list'] * 6 + ['missing', 'nonlist']))
+            mode = draw(st.sampled_from(['list'] * 5 + ['missing', 'nonlist', 'nonlist']))
             inlist_ok = draw(st.integers(0, 5)) == 0       # targets addressed through a list index: open finding, kept as a small class
             cand = [p for p in paths if isinstance(_get(cur, p), list) and (inlist_ok or all(isinstance(x, str) for x in p))] if mode == 'list' else \
                 [p for p in paths if not isinstance(_get(cur, p), list)] if mode == 'nonlist' else []
